@@ -47,6 +47,7 @@ enum RawOp {
     WithLen(usize, bool),
     WithCapacity(usize),
     Clone,
+    CloneFrom(usize, u64), // clone_from() a vector of that length filled with that pattern
 }
 
 fn model_int(m: &[bool], off: usize, w: usize) -> u64 {
@@ -184,6 +185,13 @@ fn raw_apply(ctx: &mut Ctx, raw: &mut RawVector, m: &mut Vec<bool>, op: &RawOp, 
             let c = raw.clone();
             *raw = c;
         },
+        RawOp::CloneFrom(n, pattern) => {
+            let bits: Vec<bool> = (0..*n).map(|i| (pattern >> (i % 64)) & 1 == 1).collect();
+            let mut src = RawVector::with_capacity(*n + (*pattern % 3) as usize * 64);
+            for b in bits.iter() { src.push_bit(*b); }
+            if let Err(p) = guard(|| raw.clone_from(&src)) { ctx.violation("raw.clone_from!panic", format!("{} after {}", p, hist())); return false; }
+            *m = bits;
+        },
     }
     ok & raw_state_check(ctx, raw, m, hist)
 }
@@ -212,7 +220,7 @@ fn raw_random_op(rng: &mut Rng, m: &[bool], max_len: usize) -> RawOp {
                 };
                 return RawOp::Resize(std::cmp::min(target, max_len), rng.chance(1, 2));
             },
-            17 => return match rng.below(6) { 0 => RawOp::Clear, 1 => RawOp::WithCapacity(rng.below(200)), 2 => RawOp::WithLen(rng.below(max_len + 1), rng.chance(1, 2)), 3 => RawOp::Clone, _ => RawOp::Reserve(rng.below(300)) },
+            17 => return match rng.below(6) { 0 => RawOp::Clear, 1 => RawOp::WithCapacity(rng.below(200)), 2 => RawOp::WithLen(rng.below(max_len + 1), rng.chance(1, 2)), 3 => if rng.chance(1, 2) { RawOp::Clone } else { RawOp::CloneFrom(rng.below(max_len + 1), rng.next_u64()) }, _ => RawOp::Reserve(rng.below(300)) },
             18 => return RawOp::Complement,
             _ => {},
         }
@@ -319,6 +327,7 @@ enum IntOp {
     New(usize),
     WithLen(usize, usize, u64),
     WithCapacity(usize, usize),
+    CloneFrom(usize, Vec<u64>), // clone_from() a vector of that width holding those items
     Iter,
     IntoIter,
     IntoRaw,
@@ -418,6 +427,13 @@ fn int_apply(ctx: &mut Ctx, v: &mut IntVector, m: &mut IntModel, op: &IntOp, his
         IntOp::New(w) => { *v = construct!("int.new!panic", IntVector::new(*w)); m.width = *w; m.items.clear(); },
         IntOp::WithLen(n, w, x) => { *v = construct!("int.with_len!panic", IntVector::with_len(*n, *w, *x)); m.width = *w; m.items = vec![trunc(*x, *w); *n]; },
         IntOp::WithCapacity(n, w) => { *v = construct!("int.with_capacity!panic", IntVector::with_capacity(*n, *w)); m.width = *w; m.items.clear(); },
+        IntOp::CloneFrom(w, xs) => {
+            let mut src = construct!("int.new!panic", IntVector::new(*w));
+            for x in xs.iter() { src.push(*x); }
+            if let Err(p) = guard(|| v.clone_from(&src)) { ctx.violation("int.clone_from!panic", format!("{} after {}", p, hist())); return false; }
+            m.width = *w;
+            m.items = xs.iter().map(|x| trunc(*x, *w)).collect();
+        },
         IntOp::Iter => {
             let got = guard(|| { let it = v.iter(); let l = it.len(); (it.collect::<Vec<u64>>(), l) });
             ok &= ctx.expect_eq("int.iter", || format!("iter() after {}", hist()), &got, &(m.items.clone(), m.items.len()));
@@ -485,7 +501,7 @@ fn int_random_op(rng: &mut Rng, m: &IntModel, max_len: usize) -> IntOp {
             },
             18 => return IntOp::New(1 + rng.below(64)),
             19 => { let nw = 1 + rng.below(64); return IntOp::WithLen(rng.below(std::cmp::min(max_len, 20) + 1), nw, wide_value(rng, nw)); },
-            20 => return IntOp::WithCapacity(rng.below(50), 1 + rng.below(64)),
+            20 => { if rng.chance(1, 2) { return IntOp::WithCapacity(rng.below(50), 1 + rng.below(64)); } let nw = if rng.chance(1, 3) { w } else { 1 + rng.below(64) }; let k = rng.below(std::cmp::min(max_len, 30) + 1); return IntOp::CloneFrom(nw, (0..k).map(|_| wide_value(rng, nw)).collect()); },
             21 => return IntOp::Iter,
             22 => return IntOp::IntoIter,
             23 => return IntOp::IntoRaw,
